@@ -653,7 +653,32 @@ func head(b []byte) []byte {
 func (c *c01) opByte(nd *byteNode) {
 	r := c.rng
 	L := int64(len(nd.m))
-	switch r.Intn(6) {
+	op := r.Intn(7)
+	if op == 6 {
+		// io.ByteReader (what compress/flate uses on bitio.IOReadSeeker to find the compressed size)
+		br, ok := nd.r.(io.ByteReader)
+		if !ok {
+			op = 0
+		} else {
+			c.logf("ReadByte at pos %d", nd.pos)
+			b, err := br.ReadByte()
+			c.logf("  -> (%#x,%v)", b, err)
+			c.run.Count("op:ReadByte", 1)
+			if nd.pos >= L {
+				if err == nil {
+					c.fail("ReadByte:beyond-end", "ReadByte at %d with len %d returned (%#x,nil)", nd.pos, L, b)
+				}
+				return
+			}
+			if b != nd.m[nd.pos] || (err != nil && !(errors.Is(err, io.EOF) && nd.pos+1 == L)) {
+				c.fail("ReadByte:wrong-byte", "ReadByte at %d with len %d returned (%#x,%v) want %#x", nd.pos, L, b, err, nd.m[nd.pos])
+				return
+			}
+			nd.pos++
+			return
+		}
+	}
+	switch op {
 	case 0, 1, 2: // Read
 		k := int(c.pickLen(max(L-nd.pos, 0)*8) / 8)
 		if r.Intn(4) == 0 {
